@@ -40,7 +40,7 @@ def expected(case):
     if tag_days:
         T = tag_days[0]
         first = next(e for e in evs if e[0] == T and not (len(e) > 3 and e[3] == 1))
-        rep_end = T + max(1, delay + first[2])
+        rep_end = T + EC.due_days(delay, first[2])
         if rep_end <= nat_end:
             return ("repaired", rep_end, "c%d" % first[1], T) if rep_end <= n else ("active", None, "c%d" % first[1], T)
     return ("repaired", nat_end, "natural", None) if nat_end <= n else ("active", None, None, None)
@@ -118,7 +118,10 @@ def wholerun_record(ctx, res, rec):
                 break
     a = max(rec["start"], 0)
     nat_end = a + max(1, rec["nrd"] - b4)
-    delays = [int(x) for x in cfg["repair_delay"]]
+    # the configured repair delays, as configured (they may be fractions of a day): read from the cfg
+    delays = [float(x) if float(x) != int(x) else int(x) for x in cfg["repair_delay"]]
+    if any(isinstance(d, float) for d in delays):
+        ctx.count("wholerun_records_with_fractional-repair-delay-configured")
     if 0 in delays:
         ctx.count("wholerun_records_with_repair-delay-0-configured")
     comp_methods = [m for m, v in cfg["methods"].items() if v["measurement_scale"] == "component"]
@@ -145,7 +148,7 @@ def wholerun_record(ctx, res, rec):
                 ctx.violate("C04:tag-without-completed-survey",
                             "tagging call without a completed survey of that site by that method that day", inp)
             trd = EC.configured_reporting_delay(cfg, first[5], first[6])
-            ok = any(rec["endDate"] == T + max(1, d + trd) for d in delays)
+            ok = any(rec["endDate"] == T + EC.due_days(d, trd) for d in delays)
             if trd >= 30:
                 ctx.count("wholerun_program_repaired_with_reporting-delay>=30")
             if rec["endDate"] == T + 1:
@@ -163,7 +166,7 @@ def wholerun_record(ctx, res, rec):
     if live_calls and not (rec["status"] == "repaired" and rec["by"] != "natural"):
         first = live_calls[0]
         T, trd = first[1], EC.configured_reporting_delay(cfg, first[5], first[6])
-        dues = [T + max(1, d + trd) for d in delays]
+        dues = [T + EC.due_days(d, trd) for d in delays]
         inp2 = dict(inp, first_tagging_call=first, repair_due_for_each_configured_delay=dues, natural_end=nat_end,
                     horizon=res.ndays)
         if first[5] not in comp_methods:
@@ -290,6 +293,9 @@ def delay_case(rng):
     kind = rng.choice(["list", "list", "list", "column", "column", "int", "missing-column"])
     n = 1 if kind == "int" else rng.choice([1, 2, 2, 3, 4, 5, 8])
     values = [rng.choice([0, 1, 2, 3, 7, 14, 30, 60, rng.randint(0, 90)]) for _ in range(n)]
+    if kind in ("list", "column") and rng.random() < 0.3:
+        # fractions of a day are valid input (the shipped default is the float list [14.0])
+        values = [rng.choice([0.25, 0.5, 0.75, 2.5, 6.5, 10.25, 14.0, 3]) for _ in range(n)]
     return kind, values, rng.randrange(1 << 31)
 
 
@@ -318,7 +324,8 @@ def delay_stage(ctx):
     from harness.adapters import emission as E
 
     cases = [("list", [3], 1), ("list", [2, 9], 2), ("int", [5], 3), ("column", [1, 2, 3], 4), ("missing-column", [1], 5),
-             ("list", [], 6), ("column", [], 7), ("list", [0], 8), ("list", [0, 0, 365], 9)]
+             ("list", [], 6), ("column", [], 7), ("list", [0], 8), ("list", [0, 0, 365], 9),
+             ("list", [2.5, 6.5], 10), ("list", [0.75, 10.25], 11), ("column", [2.5, 6.5], 12), ("list", [14.0], 13)]
     cases += [delay_case(ctx.rng) for _ in range(ctx.pick(1500, 20000))]
     lines, owners = [], []
     hit = {}
@@ -347,11 +354,14 @@ def delay_stage(ctx):
                 ctx.count("rep_delay_disagree")
                 continue
             hit.setdefault(len(values), set()).add(idx)
-        lines.append("sampledelay [%s] %d" % (",".join(str(v) for v in values), idx))
+        # the model's list holds integers: quarter days
+        lines.append("sampledelay [%s] %d" % (",".join(str(int(round(v * 4))) for v in values), idx))
+        if any(float(v) != int(v) for v in values):
+            ctx.count("rep_delay:fractional-values")
         owners.append((kind, values, seed, out))
     model = core.LeanDriver("drv_emission").run(lines)
     for (kind, values, seed, out), ml in zip(owners, model):
-        if ml != str(out["value"]):
+        if ml != str(int(round(out["value"] * 4))):
             ctx.disagree("emission/_get_rep_delay(sampleDelay)", {"delay_case": [kind, values, seed]}, ml, str(out["value"]))
             ctx.count("rep_delay_disagree")
         ctx.nontrivial.add(("delay", kind, len(values), out["index"]))
